@@ -107,7 +107,9 @@ pub fn op(toks: &[&str]) -> Option<String> {
             let mut z = vec![0u8]; z.extend_from_slice(&d);
             let r17z = payload(17, z).to_rtmp_message().map(|m| show_msg(&m)).map_err(|e| de_kind(&e));
             let r20 = payload(20, d.clone()).to_rtmp_message().map(|m| show_msg(&m)).map_err(|e| de_kind(&e));
-            if r15 != r18 { "! FAIL type-15-differs-from-18".into() } else if r17z != r20 { "! FAIL type-17-with-leading-zero-differs-from-20".into() } else { "! ok".into() }
+            let r17 = payload(17, d.clone()).to_rtmp_message().map(|m| show_msg(&m)).map_err(|e| de_kind(&e));
+            if r15 != r18 { "! FAIL type-15-differs-from-18".into() } else if r17z != r20 { "! FAIL type-17-with-leading-zero-differs-from-20".into() }
+            else if d.first() != Some(&0) && r17 != r20 { "! FAIL type-17-without-leading-zero-differs-from-20".into() } else { "! ok".into() }
         }
         ["!msg.unknown", t, d] => {
             let t: u8 = t.parse().ok()?;
